@@ -99,6 +99,20 @@ def value_repr(f):
     return conv(_F.result(f, timeout=0))
 
 
+def drawn_graphs():
+    try:
+        import re
+        import networkx
+        out = []
+        for g in networkx.GRAPHS:
+            nodes = [[n, re.sub(r"<S?Future at [^>]*>", "<Future>", str(a.get("label"))), a.get("shape")] for n, a in g.nodes_added]
+            edges = [[a, b, str(at.get("label"))] for a, b, at in g.edges_added]
+            out.append({"nodes": nodes, "edges": edges})
+        return out
+    except Exception:  # noqa
+        return None
+
+
 def dir_snapshot(d):
     """files of the cache directory with their dataset names (h5py stand-in format)"""
     out = {}
@@ -159,6 +173,17 @@ def run_case(case):
                     if c.get("nest"):
                         args = [args]
                     kw = {}
+
+                    def build(spec):
+                        if spec[0] == "v":
+                            return spec[1]
+                        if spec[0] == "f":
+                            return futs[spec[1]]
+                        return [build(x) for x in spec[1]]
+                    if "argspec" in c:
+                        args = [build(x) for x in c["argspec"]]
+                        for k2, v2 in c.get("kwspec", []):
+                            kw[k2] = build(v2)
                     if c.get("res") is not None:
                         kw["resource_dict"] = json.loads(json.dumps(c["res"]))
                         passed[i] = kw["resource_dict"]
@@ -258,6 +283,7 @@ def run_case(case):
         "parked": {k: list(v) for k, v in ctl.parked_ops().items()},
         "dir": dir_snapshot(cache_dir),
         "install_error": ctl.extra.get("install_error"),
+        "graphs": drawn_graphs(),
     }
     shutil.rmtree(cache_dir, ignore_errors=True)
     return res
